@@ -235,6 +235,43 @@ fn check_probe(ev: &mut Ev, pr: &gm::Probe) -> CaseResult {
             .into());
         }
     }
+    // The same revision against bounds that are *related* to the version by
+    // text: the version without its revision, with a shorter / longer
+    // equal-valued spelling in front of the revision, with a revision of its
+    // own in front of the package's.  Expected verdicts from the reference
+    // dewey model (only where it is K1-free and inside its digit bound).
+    let rel_bounds = [
+        pr.prefix.clone(),
+        format!("{}.0nb{}", pr.prefix, pr.n),
+        format!("{}.0nb{}", pr.prefix, pr.n - 1),
+        format!("{}.0.0nb{}", pr.prefix, pr.n + 1),
+        format!("{}_nb{}", pr.prefix, pr.n),
+        format!("{}nb{}", pr.prefix, pr.n + 2),
+        format!("{}nb{}nb{}", pr.prefix, pr.n + 3, pr.n),
+        format!("{}nb{}nb{}", pr.prefix, pr.n, pr.n - 1),
+    ];
+    for b in rel_bounds.iter() {
+        if b.is_empty() || !crate::gen::version::usable(b) {
+            continue;
+        }
+        for op in od::OPS {
+            let want = od::satisfies(&version, op, b);
+            if !want.in_domain || want.rank != want.ascii {
+                continue;
+            }
+            let pat = format!("{}{}{}", pr.base, op.text(), b);
+            ev.eval();
+            ev.count("probe/related-bounds");
+            let m = Pattern::new(&pat).map_err(|e| format!("Pattern::new({pat:?}) failed: {e}"))?.matches(&name);
+            if m != want.rank {
+                return Err(format!(
+                    "{pat:?} on {name:?}: matches = {m}, the dewey rule with revision {} says {}",
+                    pr.n, want.rank
+                )
+                .into());
+            }
+        }
+    }
     ev.nontrivial(hash_bytes(name.as_bytes()));
     Ok(())
 }
